@@ -161,7 +161,7 @@ impl Prop for C09 {
     }
 
     fn rule(&self) -> String {
-        "Cases: the end position of a generated walk (capture-biased picks so that quiescence matters; curated endgames included) imported from text, depth 1-4, history table fresh or pre-filled with generated values. With the node-entry hook emptying the transposition table at every node, get_best_move_entry(..).score must equal an exhaustive negamax written in the harness on the engine's own move generator and score with the same leaf rules (interior: checked list, mate = MIN+100+ply, stalemate 0; depth-1 layer: unchecked list, MIN+2000+ply; quiescence: stand-pat, tactical moves of the unchecked list, MIN+3000+ply when nothing is generated), both clamped to ±15000; and the score with a pre-filled history table must equal the score with a fresh one. Roots with fewer than two legal moves (single-reply shortcut), trees containing a quiescence node with a king but no generated move, and reference trees above 700 000 nodes are skipped and counted. evaluations = trees compared. Non-trivial tree: depth >= 2 and at least one tactical move searched in quiescence; distinct by (position, depth).".into()
+        "Cases: the end position of a generated walk (capture-biased picks so that quiescence matters; curated endgames included) imported from text, depth 1-4 (5-6 for positions with at most six men), history table fresh or pre-filled with generated values. With the node-entry hook emptying the transposition table at every node, get_best_move_entry(..).score must equal an exhaustive negamax written in the harness on the engine's own move generator and score with the same leaf rules (interior: checked list, mate = MIN+100+ply, stalemate 0; depth-1 layer: unchecked list, MIN+2000+ply; quiescence: stand-pat, tactical moves of the unchecked list, MIN+3000+ply when nothing is generated), both clamped to ±15000; and the score with a pre-filled history table must equal the score with a fresh one. Roots with fewer than two legal moves (single-reply shortcut), trees containing a quiescence node with a king but no generated move, and reference trees above 700 000 nodes are skipped and counted. evaluations = trees compared. Non-trivial tree: depth >= 2 and at least one tactical move searched in quiescence; distinct by (position, depth).".into()
     }
 
     fn assumptions(&self) -> Vec<String> {
@@ -180,7 +180,7 @@ impl Prop for C09 {
     }
 
     fn strategy(&self, _ctx: &Ctx) -> BoxedStrategy<TreeCase> {
-        let depth = prop_oneof![1 => Just(1u8), 3 => Just(2u8), 3 => Just(3u8), 2 => Just(4u8)];
+        let depth = prop_oneof![1 => Just(1u8), 3 => Just(2u8), 3 => Just(3u8), 2 => Just(4u8), 1 => Just(5u8), 1 => Just(6u8)];
         let hist = prop_oneof![1 => Just(Vec::new()), 1 => proptest::collection::vec((0u16..768, 0u16..9500), 1..200)];
         (walk_strategy(false), depth, hist).prop_map(|(walk, depth, history)| TreeCase { walk, depth, history }).boxed()
     }
@@ -201,7 +201,8 @@ impl Prop for C09 {
         }
         let fen = p.fen6();
         let g = Game::new(&fen).map_err(|e| Fail::new("sane-position-not-importable", e.to_string()))?;
-        let depth = case.depth.clamp(1, 4);
+        // depth 5 and 6 only where the exhaustive reference is still feasible: at most six men
+        let depth = if p.men() <= 6 { case.depth.clamp(1, 6) } else { case.depth.clamp(1, 4) };
         let mut rf = Reference { nodes: 0, weird: false, q_captures: 0 };
         let mut gc = g.clone();
         let want = match eng::guarded(|| rf.root(&mut gc, depth)) {
